@@ -363,7 +363,7 @@ func sweepPlans(r *hx.Rng, fixed []*shapeD, thorough bool) []*sweepD {
 			s = randomShape(r, 5000+k)
 		}
 		sw := randomSweep(r, s, 300)
-		sw.HTTP = k%4 == 3
+		sw.HTTP = k%4 == 3 && k < 80 // every HTTP script leaves an edit server behind
 		out = append(out, sw)
 	}
 	return out
